@@ -201,6 +201,10 @@ def round_trip_user(E, cfg):
     u = X.new_unit(s, None, Fraction(5, 2) * X.ref_unit)
     x = E.rational('x', 'dec')
     _round_trip_checks(E, Quantity(x, u), [s])
+    # a symbol already used by a unit of another type cannot be taken: the first unit keeps its round trip
+    import quantity.predefined as pre
+    C.expect_raises(E, lambda: X.new_unit('m', None, Fraction(3) * X.ref_unit), ValueError, 'symbol-of-other-type-rejected')
+    _round_trip_checks(E, Quantity(x, pre.METRE), ['m after rejected duplicate'])
 
 
 def malformed_concrete(E, cfg):
